@@ -1,5 +1,7 @@
 import FP.Props.C03
 #print axioms FP.Props.C03.append_targets_fresh
+#print axioms FP.Props.C03.no_store_into_an_argument
+#print axioms FP.Props.C03.indexed_stores_into_fresh_locals
 #print axioms FP.Props.C03.eval_uses_readonly_proto_api
 #print axioms FP.Props.C03.read_set_other
 #print axioms FP.Props.C03.read_append_old
